@@ -574,9 +574,9 @@ func Spec() *mon.Spec {
 			{Name: "globals4", Quick: 16, Thorough: 1000, Run: runBatch(modeGlobalStorm), GoMaxProcs: 4, Timeout: 300 * time.Second},
 			{Name: "globals16", Quick: 8, Thorough: 400, Run: runBatch(modeGlobalStorm), GoMaxProcs: 16, Timeout: 300 * time.Second},
 		},
-		Floors: map[string]int{"batches": 60, "ops": 1200, "ops_overlapping_another": 600, "concurrent_ops": 4,
+		Floors: map[string]int{"batches": 25, "ops": 1200, "ops_overlapping_another": 600, "concurrent_ops": 4,
 			"op_eval": 600, "op_eval-private": 40, "op_call": 20, "op_check": 40, "op_extend": 20, "op_delete": 5, "op_scan": 100,
 			"contended_modules": 20, "ops_touching_contended_module": 40, "pause_hook_hits": 40,
-			"flavour_preloaded": 4, "flavour_disjoint": 10, "flavour_contended": 10, "distinct_nontrivial": 60},
+			"flavour_preloaded": 4, "flavour_disjoint": 10, "flavour_contended": 6, "distinct_nontrivial": 25},
 	}
 }
